@@ -37,7 +37,9 @@ def check(run, prog, tier):
                       "'already built' short-cut that other setters do not invalidate", minimum=2)
     from . import memorule
     memorule.check(run, prog, "C03-I", ["quantarhei.builders.aggregate_base.AggregateBase",
-                                        "quantarhei.builders.aggregates.Aggregate"],
+                                        "quantarhei.builders.aggregates.Aggregate",
+                                        "quantarhei.qm.hilbertspace.dmoment.TransitionDipoleMoment",
+                                        "quantarhei.qm.hilbertspace.hamiltonian.Hamiltonian"],
                    "the Hamiltonian and dipole operator then belong to earlier energies, couplings or dipoles")
     run.rule("C03-J", "the setters of molecules and aggregates use the converted value wherever they touch what they store "
                       "(rule of C05-U15, builders only): the operators do not depend on the units active when a parameter was given",
